@@ -14,7 +14,11 @@ sys.path.insert(0, os.path.dirname(os.path.abspath(__file__)))
 CLAIMED = {}
 for fn in sorted(os.listdir(os.path.join(VERIF, "tools", "props"))):
     if fn.startswith("C") and fn.endswith(".py"):
-        m = importlib.import_module("props." + fn[:-3])
+        try:
+            m = importlib.import_module("props." + fn[:-3])
+        except Exception as e:  # a props file under construction must not break the manifest
+            print("skipping %s: %s" % (fn, e))
+            continue
         if getattr(m, "MANIFEST", None):
             d = m.MANIFEST
             CLAIMED[fn[:-3]] = (d["technique"], d["text"], d["note"], d["ref"])
